@@ -39,7 +39,7 @@ extern "C" void vh_c12_entropy() {
 }
 
 // ids of all entities are well formed, pairwise distinct, and unchanged by any operation of the history menu
-#define N_OPS 17
+#define N_OPS 20
 extern "C" void vh_c12_stable() {
     nixsym_declare_reach("compared");
     World w;
@@ -71,6 +71,10 @@ extern "C" void vh_c12_stable() {
         case 15: w.b.createDataArray(UUID_NAME, "t", DataType::Double, NDSize({1})); break;
         case 16: w.b.createGroup("grp", "t"); w.b.createMultiTag("mtag", "t", w.pos); w.b.createSource("src", "t"); break;
         case 13: { drop_handles(w); w.f.close(); w.f = File::open(WORLD_FILE, FileMode::ReadWrite); rebind_world(w); break; }
+        // a later session in every other way a file can be opened without truncating it
+        case 17: { drop_handles(w); w.f.close(); w.f = File::open(WORLD_FILE, FileMode::ReadWrite, "hdf5", Compression::None, OpenFlags::Force); rebind_world(w); break; }
+        case 18: { drop_handles(w); w.f.close(); w.f = File::open(WORLD_FILE, FileMode::ReadOnly, "hdf5", Compression::None, OpenFlags::Force); rebind_world(w); break; }
+        case 19: { drop_handles(w); w.f.close(); w.f = File::open(WORLD_FILE, FileMode::ReadOnly); rebind_world(w); File again = w.f; (void)again; break; }
         }
     } catch (const std::exception &) {}
     nixsym_assert(w.f.id() == fid, "file id changed without forceId");
@@ -86,6 +90,7 @@ extern "C" void vh_c12_stable() {
         if (!before.count(kv.first)) nixsym_assert(kv.first != fid, "new entity got a fresh id");
     }
     nixsym_reach("compared");
+    if (op == 18 || op == 19) return;                  // read-only session: forceId is (rightly) refused there
     std::string old = w.f.id();
     w.f.forceId();
     nixsym_assert(w.f.id() != old && well_formed_uuid(w.f.id()), "forceId assigns a new well-formed id");
